@@ -44,12 +44,20 @@ type joinDef struct {
 // at exactly that point, as a slow filter computation would.
 var joinHook func()
 
+// joinSlow, when positive, makes EVERY call of a gated filter function take
+// that long (virtual time): a selection function that is slow while the source
+// changes quickly, so that the join's monitor falls behind and loses events.
+var joinSlow atomic.Int64
+
 func gated[T any](base func(...T) filter.ComparableFilter) func(...T) filter.ComparableFilter {
 	var first atomic.Bool
 	return func(xs ...T) filter.ComparableFilter {
 		f := base(xs...)
 		if h := joinHook; h != nil && first.CompareAndSwap(false, true) {
 			h()
+		}
+		if d := joinSlow.Load(); d > 0 {
+			time.Sleep(time.Duration(d))
 		}
 		return f
 	}
@@ -360,6 +368,30 @@ func runC09(c *Ctx) {
 						}
 					}
 					verify(fmt.Sprintf("cycle %d after creation", cycle))
+					if cycle == 2 {
+						// 134 source changes while every evaluation of the selection function
+						// takes 20 ms: the join's monitor loses what does not fit its buffer;
+						// once the source is quiet the join still selects by what the source
+						// holds NOW (the last four changes decide it)
+						joinSlow.Store(int64(20 * time.Millisecond))
+						for k := 0; k < 130; k++ {
+							srcSrv.Put(proto(jd.srcKind, 1+k%2, 1+(k/2)%2, k%2))
+							if k%20 == 19 {
+								// the source controller itself keeps up (no virtual time passes:
+								// the selection function stays asleep)
+								pert.Barrier()
+							}
+						}
+						pert.Barrier()
+						for ns := 1; ns <= 2; ns++ {
+							for nm := 1; nm <= 2; nm++ {
+								srcSrv.Put(proto(jd.srcKind, ns, nm, 2))
+							}
+						}
+						time.Sleep(6 * time.Second)
+						joinSlow.Store(0)
+						verify("cycle 2 after a burst of source changes against a slow selection function")
+					}
 					steps := 6 + c.Rng.Intn(8)
 					for s := 0; s < steps; s++ {
 						switch x := c.Rng.Intn(9); {
@@ -483,6 +515,18 @@ func runC09(c *Ctx) {
 			c.DistinctCase(fmt.Sprint(jd.name, seed))
 			if runs == 3 {
 				c.Sample(sample)
+			}
+		}
+		// a source that never becomes ready (its first list fails, or it is closed
+		// while its first list is in flight) under a ready destination: whatever
+		// the constructor returns never becomes ready
+		for ji, jd := range joinDefs {
+			if c.Quick() && (ji+rep+int(c.Seed))%3 != 0 {
+				continue
+			}
+			for variant := 0; variant < 2; variant++ {
+				deadSourceJoin(c, jd, variant, c.Seed*100+int64(runs))
+				runs++
 			}
 		}
 		// the double join ingress -> services -> pods
@@ -642,4 +686,79 @@ func runC09(c *Ctx) {
 	}
 	c.Rep.Rule = "all eight generated joins and the double join IngressPods over fake API servers for source and destination (typed base controllers, virtual time, perturbation): source histories (sources appear, change selector, disappear) and destination histories (labels and namespaces change) at arbitrary relative timing; three create/use/close cycles of the join over long-lived base controllers (the third through the ...With constructor with a filter function that is slow on its first call while the source changes) (in the second cycle the context given to the constructor is cancelled right after construction: it only carries the logger). At barriers: join cache = destination objects selected by a current source object (ownership predicate written directly; also vs the extracted constructor + accept), ready only after source and destination (slow source list variant; slow destination list variant with the source changing before the destination is ready) and ready also when no source object exists at creation, Close stops everything the join created (goroutine inventory back to baseline each cycle; also when an IngressPods result is closed before it ever became ready) and leaves the bases running and current. Non-trivial = every (join, scenario)."
 	c.Rep.Stats["runs"] = runs
+}
+
+// deadSourceJoin: see the call site.  variant 0: every list of the source fails;
+// variant 1: the source is closed while its first list is in flight.
+func deadSourceJoin(c *Ctx, jd joinDef, variant int, seed int64) {
+	var problems []string
+	what := fmt.Sprintf("join %s over a source that never becomes ready (variant %d) and a ready destination", jd.name, variant)
+	c.Now(what)
+	dl := sched.Bubble(c.T, func() {
+		srcSrv, dstSrv := fakeapi.New(), fakeapi.New()
+		srcSrv.Kind, dstSrv.Kind = jd.srcKind, jd.dstKind
+		srcSrv.Put(proto(jd.srcKind, 1, 1, 1))
+		dstSrv.Put(proto(jd.dstKind, 1, 1, 1))
+		dstSrv.Put(proto(jd.dstKind, 1, 2, 2))
+		if variant == 0 {
+			srcSrv.ListBehave = func(int) fakeapi.ListKind { return fakeapi.ListErr }
+		} else {
+			srcSrv.ListLatency = func(int) time.Duration { return 3 * time.Second }
+		}
+		pert := sched.NewPerturb(seed, int(seed%3))
+		ctx, cancel := context.WithCancel(context.Background())
+		defer cancel()
+		src, err := pkgOf(jd.srcKind).build(ctx, pert.Log(), fakeClient(srcSrv))
+		dst, err2 := pkgOf(jd.dstKind).build(ctx, pert.Log(), fakeClient(dstSrv))
+		if err != nil || err2 != nil {
+			problems = append(problems, fmt.Sprintf("construction failed: %v %v", err, err2))
+			return
+		}
+		defer func() {
+			pert.SetLevel(0)
+			src.closeFn()
+			dst.closeFn()
+			sched.Settle()
+		}()
+		time.Sleep(time.Second)
+		pert.Barrier()
+		if !isClosed(dst.ready()) {
+			problems = append(problems, "the destination is not ready (scenario premise)")
+			return
+		}
+		j, err := jd.mk(ctx, src, dst)
+		if variant == 1 {
+			time.Sleep(500 * time.Millisecond)
+			src.closeFn()
+		}
+		time.Sleep(5 * time.Second)
+		pert.Barrier()
+		if isClosed(src.ready()) {
+			problems = append(problems, "the source became ready (scenario premise)")
+		}
+		if err == nil {
+			if isClosed(j.ready()) {
+				ids, _ := j.listIDs()
+				problems = append(problems, fmt.Sprintf("the join is ready (holding %v) although its source never became ready", ids))
+			}
+			j.closeFn()
+			pert.Barrier()
+			if !isClosed(j.done()) {
+				problems = append(problems, "the join is not done after Close()")
+			}
+		}
+		if isClosed(dst.done()) {
+			problems = append(problems, "the destination controller stopped")
+		}
+	})
+	c.Rep.Evaluations++
+	replay := map[string]interface{}{"scenario": what, "join": jd.name, "variant": variant}
+	if dl != "" {
+		replay["deadlock"] = dl
+		c.Violation("", "hang (bubble deadlock): "+what, replay)
+	}
+	for _, p := range problems {
+		c.Violation("", jd.name+": "+p+" ["+what+"]", replay)
+	}
+	c.DistinctCase(fmt.Sprintf("dead-source-%s-%d", jd.name, variant))
 }
